@@ -145,6 +145,7 @@ func runOne(spec *PropSpec, dir string, cfg Config) (r *Run, stats map[string]an
 	theClosures = buildClosureInfo(p)
 	r = newRun(spec.ID, p)
 	spec.Rules(r)
+	ruleStillWired(r)
 	files := 0
 	for _, pk := range p.Pkgs {
 		files += len(pk.Syntax)
@@ -152,6 +153,7 @@ func runOne(spec *PropSpec, dir string, cfg Config) (r *Run, stats map[string]an
 	stats = map[string]any{
 		"packages_analysed": len(p.Pkgs), "packages_module": len(p.All), "packages_loaded": len(p.ByPath),
 		"functions": len(p.Funcs), "files": files, "seconds": time.Since(t0).Seconds(),
+		"renames_followed": append([]string{}, renameNotes...),
 	}
 	return r, stats, nil
 }
@@ -260,6 +262,7 @@ func cmdSweep(args []string) int {
 			}()
 			r := newRun(id, p)
 			spec.Rules(r)
+			ruleStillWired(r)
 			for _, rr := range r.Rules {
 				if len(rr.Obs) < rr.Floor {
 					fmt.Printf("FLOOR %s.%s %d<%d\n", id, rr.ID, len(rr.Obs), rr.Floor)
